@@ -152,16 +152,36 @@ constexpr auto swap(pair<T1, T2>& lhs, pair<T1, T2>& rhs) noexcept(noexcept(lhs.
     lhs.swap(rhs);
 }
 
+template <typename T>
+struct reference_wrapper;
+
+namespace detail {
+template <typename T>
+struct make_pair_unwrap {
+    using type = T;
+};
+
+template <typename T>
+struct make_pair_unwrap<reference_wrapper<T>> {
+    using type = T&;
+};
+
+template <typename T>
+using make_pair_unwrap_decay_t = typename make_pair_unwrap<decay_t<T>>::type;
+} // namespace detail
+
 /// \brief Creates a etl::pair object, deducing the target type from the types
 /// of arguments.
 ///
 /// \details The deduced types V1 and V2 are etl::decay<T1>::type and
 /// etl::decay<T2>::type (the usual type transformations applied to arguments of
-/// functions passed by value).
+/// functions passed by value) unless application of etl::decay results in
+/// etl::reference_wrapper<X> for some type X, in which case the deduced type is X&.
 ///
 /// https://en.cppreference.com/w/cpp/utility/pair/make_pair
 template <typename T1, typename T2>
-[[nodiscard]] constexpr auto make_pair(T1&& t, T2&& u) -> pair<decay_t<T1>, decay_t<T2>>
+[[nodiscard]] constexpr auto make_pair(T1&& t, T2&& u)
+    -> pair<detail::make_pair_unwrap_decay_t<T1>, detail::make_pair_unwrap_decay_t<T2>>
 {
     return {etl::forward<T1>(t), etl::forward<T2>(u)};
 }
